@@ -226,7 +226,20 @@ RestartVerdicts(r) ==
     IF r.res = "panic" THEN {V("C09", "from_block panicked", ""), V("C08", "from_block did not complete", "")}
     ELSE (IF Forget(r.post) # Forget(r.pre) THEN {V("C08", "a state rebuilt from its block differs from the original (header, coins, pools, stakes, history, transactions or action)", "")} ELSE {})
 
-InitVerdicts(r) == StateVerdicts(r.post)
+\* genesis: the state realised from a configuration holds exactly the configured coin at the zero coin id, the configured fee pool,
+\* multiplier and stakes, and nothing else (differences in fields no property speaks about are conformance notes)
+InitVerdicts(r) ==
+    LET post == r.post  cfg == r.cfg  cm == CoinMap(post) IN
+       StateVerdicts(post)
+  \cup (IF post.net # cfg.net \/ post.height # 0 \/ post.hist # <<>> THEN {V("C07", "a genesis state has the wrong network, a non-zero height or a history", "")} ELSE {})
+  \cup (IF Cardinality(DOMAIN cm) # 1 \/ \E k \in DOMAIN cm : (cm[k].val # cfg.coin.val \/ cm[k].cov # cfg.coin.cov \/ cm[k].denom # cfg.coin.denom \/ cm[k].h # 0)
+        THEN {V("C01", "a genesis state holds other coins than the configured initial coin", ""), V("C02", "a genesis state holds other coins than the configured initial coin", "")} ELSE {})
+  \cup (IF post.feePool # cfg.feePool \/ post.tips # Zero THEN {V("C01", "a genesis state's fee pool / tips are not the configured fee pool / zero", "")} ELSE {})
+  \cup (IF post.feeMult # cfg.feeMult THEN {V("C17", "a genesis state's fee multiplier is not the configured one", "")} ELSE {})
+  \cup (IF {[tx |-> x.tx, pk |-> x.pk, start |-> x.start, end |-> x.end, syms |-> x.syms] : x \in RangeS(post.stakes)}
+            # {[tx |-> x.tx, pk |-> x.pk, start |-> x.start, end |-> x.end, syms |-> x.syms] : x \in RangeS(cfg.stakes)}
+        THEN {V("C13", "a genesis state's stakes are not the configured ones", "")} ELSE {})
+  \cup (IF post.pools # <<>> \/ post.txset # <<>> \/ post.dosc # MICRO THEN {V("NOTE", "genesis pools / transactions / DOSC speed differ", "")} ELSE {})
 
 \* ---- voting power as the stake set reports it (C13) --------------------------------------------------------------------
 VotesVerdicts(r) ==
